@@ -503,9 +503,15 @@ static void gen_junk_resolv(vh_rng_t *r, int cls, cfg_bb_t *l)
                                          "1.2.3.4/255.255.x.0", "10.0.0.0/8 junk", "1.2.3.4*/16",
                                          "xyzzy ; lwk", "1 0123456789012345", "/8", "1.2.3.4/-1",
                                          "2001:db8::/64 1.2.3.4/33" };
-  static const char *const ndotsnn[] = { "ndots:abc", "ndots:", "ndots", "ndots:x5", "ndots:-" };
+  /* values no unsigned int can hold are malformed numbers, not large ones */
+  static const char *const ndotsnn[] = { "ndots:abc", "ndots:", "ndots", "ndots:x5", "ndots:-",
+                                         "ndots:4294967296", "ndots:4294967301", "ndots:8589934592",
+                                         "ndots:18446744073709551617" };
   static const char *const optzero[] = { "timeout:0", "attempts:0", "retrans:0", "retry:0",
-                                         "timeout:abc", "attempts:", "timeout", "retry:x" };
+                                         "timeout:abc", "attempts:", "timeout", "retry:x",
+                                         "timeout:4294967301", "attempts:4294967297", "retrans:8589934597",
+                                         "retry:4294967298", "attempts:18446744073709551617",
+                                         "timeout:9999999999" };
   static const char *const optgarb[] = { "foo", "foo:bar", ":", "::5", ":5", "=", "ndot:3",
                                          "rotate=1x", "NDOTS:3", "Rotate", "use_vc", "timeout=3" };
   static const char *const srchemp[] = { "search ,", "search , ,", "search ,,", "domain ,",
@@ -856,8 +862,16 @@ static void gen_junk_hosts(vh_rng_t *r, int cls, const cfg_names_t *nm, cfg_bb_t
       }
       break;
     case JH_LONG_IP:
-      gen_alnum(r, l, vh_range(r, 47, 200));
-      cfg_bb_printf(l, " %s", known);
+      gen_alnum(r, l, vh_range(r, 46, 200));
+      if (vh_chance(r, 1, 2)) {
+        /* the rest of the malformed line looks like an entry of its own */
+        cfg_bb_printf(l, " %s %s", vh_chance(r, 1, 2) ? ip : "6.6.6.6", known);
+        if (vh_chance(r, 1, 2)) {
+          cfg_bb_str(l, " only-on-the-junk-line.example");
+        }
+      } else {
+        cfg_bb_printf(l, " %s", known);
+      }
       break;
     case JH_LONG_NAME:
       cfg_bb_str(l, "9.9.9.9 ");
@@ -865,6 +879,9 @@ static void gen_junk_hosts(vh_rng_t *r, int cls, const cfg_names_t *nm, cfg_bb_t
       break;
     case JH_BINARY:
       gen_binary(r, l, vh_range(r, 1, 40), 1, 1);
+      if (vh_chance(r, 1, 3)) {
+        cfg_bb_printf(l, " %s %s", vh_chance(r, 1, 2) ? ip : "6.6.6.6", known);
+      }
       break;
     default:
       cfg_bb_str(l, "9.9.9.9 ");
@@ -949,9 +966,12 @@ static void gen_junk_envtoken(vh_rng_t *r, int cls, cfg_bb_t *l)
   static const char *const unk[]  = { "foo", "options", "debug", "nameserver", "9.9.9.9", "edns0" };
   static const char *const garb[] = { "foo:bar", ":", "::5", ":5", "=", "ndot:3", "NDOTS:3",
                                       "Rotate", "timeout=3" };
-  static const char *const nn[]   = { "ndots:abc", "ndots:", "ndots", "ndots:x5" };
+  static const char *const nn[]   = { "ndots:abc", "ndots:", "ndots", "ndots:x5", "ndots:4294967296",
+                                      "ndots:4294967301", "ndots:8589934592" };
   static const char *const zr[]   = { "timeout:0", "attempts:0", "retrans:0", "retry:0",
-                                      "timeout:abc", "attempts:" };
+                                      "timeout:abc", "attempts:", "timeout:4294967301",
+                                      "attempts:4294967297", "retrans:8589934597", "retry:4294967298",
+                                      "timeout:9999999999" };
   switch (cls) {
     case JE_UNKNOWN:
       cfg_bb_str(l, PICK(r, unk));
